@@ -108,8 +108,13 @@ def main(tier, seed):
     for cfg, flt in (("FortranScopes_GenTypes.cfg", '"typedvar"'), ("FortranScopes_GenProcs.cfg", '"procptr"'), ("FortranScopes_GenSubmod.cfg", '"submodule"')):
         info = {}
         k = 0
-        for st in tlc.dump_states("FortranScopes", cfg, info=info, timeout=3000,
-                                  prefilter=lambda t, flt=flt: "stack = <<>>" in t and flt in t):
+        def keep(t, flt=flt):
+            if "stack = <<>>" not in t:
+                return False
+            if flt == '"procptr"':   # PROCEDURE(iface) declarations, or a type named like an earlier generic interface
+                return flt in t or 'kind |-> "type", name |-> <<"g"' in t or 'name |-> <<"g", ' in t and '"type"' in t
+            return flt in t
+        for st in tlc.dump_states("FortranScopes", cfg, info=info, timeout=3000, prefilter=keep):
             st["_focus"] = True
             progs.append(st)
             k += 1
